@@ -186,30 +186,24 @@ where
         J: ExactSizeIterator<Item = usize>,
     {
         let indices = indices.into_iter().collect::<Vec<_>>();
-        let min_index = *indices.first().unwrap();
         let leaves_vec = leaves.into_iter().collect::<Vec<_>>();
 
-        let max_index = start + leaves_vec.len();
-
-        let mut set_values = vec![Self::Hasher::default_leaf(); max_index - min_index];
-
-        for i in min_index..start {
-            if !indices.contains(&i) {
-                let value = self.get_leaf(i);
-                set_values[i - min_index] = value;
-            }
+        if leaves_vec.is_empty() && indices.is_empty() {
+            return Err(Report::msg("no leaves or indices to be removed"));
+        }
+        // Validate the whole request first, so that a rejected call leaves the tree untouched
+        if start + leaves_vec.len() > self.capacity() {
+            return Err(Report::msg("provided range exceeds set size"));
+        }
+        if indices.iter().any(|&i| i >= self.capacity()) {
+            return Err(Report::msg("index to remove exceeds set size"));
         }
 
-        for i in 0..leaves_vec.len() {
-            set_values[start - min_index + i] = leaves_vec[i];
-        }
-
+        // Reset the removed leaves to the default value, then write the new leaves from `start`
         for i in indices {
-            self.cached_leaves_indices[i] = 0;
+            self.delete(i)?;
         }
-
-        self.set_range(start, set_values.into_iter())
-            .map_err(|e| Report::msg(e.to_string()))
+        self.set_range(start, leaves_vec.into_iter())
     }
 
     // Sets a leaf at the next available index
